@@ -120,6 +120,18 @@ def run(ctx):
             ctx.known_finding("F111", "two calls of a contracted function that `//line` directives map to one template position share one call-site identity: the nil verdict of `id(nil)` is read back for `id(x)`, %s is reported (corpus/c15kf/linedir)" % ", ".join(x[1] for x in kf))
         else:
             ctx.violation("linedir", "C15 fails on the real tool: two call sites mapped to one //line position alias: %s reported\nreplay: bin/harness analyze -dir corpus/c15kf/linedir\n" % ", ".join(x[1] for x in kf))
+    # known finding F112: the object path of a field reachable through two type names differs between the dependency's own
+    # view (source) and an importer's view through export data (go vet): the annotation of the field is not found
+    d112 = os.path.join(common.VERIF, "corpus", "c15kf", "objpath")
+    a112, ra112 = drivers.inproc(d112, False)
+    v112, _ = drivers.govet(d112)
+    lost = sorted(x for x in (a112 or set()) - v112 if x[0].startswith("use/"))
+    ctx.obligation("corpus/c15kf/objpath: the in-process driver reports the dereference of the nilable-annotated field in the importer (reference for finding F112)", bool(a112) and any(x[0].startswith("use/") for x in a112))
+    if lost:
+        if any(k["id"] == "F112" for k in ctx.known_for()):
+            ctx.known_finding("F112", "under go vet -vettool (dependencies from export data) the field `P` of `type \u00c4 struct{P *int}; type a \u00c4` gets the object path \u00c4.UF0 in the importer and a.UF0 in the dependency: `// nilable(P)` is not found, %s:%d is reported by the standalone driver only (corpus/c15kf/objpath)" % (lost[0][0], lost[0][1]))
+        else:
+            ctx.violation("objpath", "C15 fails on the real tool: %s:%d is reported by the in-process driver but not under go vet -vettool: the annotated field has another identity when its package comes from export data\nreplay: cd corpus/c15kf/objpath && go vet -vettool=$PWD/../../../bin/nilaway ./...\n" % (lost[0][0], lost[0][1]))
     ctx.write_evidence()
 
 
